@@ -806,17 +806,25 @@ package stats
 // ---------------------------------------------------------------------
 // MeanCI (C04). Model xreal (infinite half-width, NaN mean).
 
-//@ assume func Mean@xreal
+//@ func Mean@xreal
 //@   deterministic
 //@   model xreal
-//@   trusted restatement of the contract proved in model real (finite data)
-//@   ensures (len(xs) == 0 ==> isnan(result)) && (len(xs) > 0 ==> isfinite(result))
+//@   ensures [empty]  len(xs) == 0 ==> isnan(result)
+//@   ensures [finite] len(xs) > 0 && (forall k in 0..len(xs) :: isfinite(xs[k])) ==> isfinite(result)
+//@   loop 1 (i) invariant (forall k in 0..len(xs) :: isfinite(xs[k])) ==> isfinite(m)
 //@   assigns nothing
-//@ assume func StdDev@xreal
+//@ func Variance@xreal
 //@   deterministic
 //@   model xreal
-//@   trusted restatement of the contract proved in model real (finite data)
-//@   ensures true
+//@   ensures [empty]  len(xs) == 0 ==> isnan(result)
+//@   ensures [one]    len(xs) == 1 ==> result == 0
+//@   ensures [finite] len(xs) > 0 && (forall k in 0..len(xs) :: isfinite(xs[k])) ==> isfinite(result)
+//@   loop 1 (n) invariant (forall k in 0..len(xs) :: isfinite(xs[k])) ==> isfinite(mean) && isfinite(M2)
+//@   assigns nothing
+//@ func StdDev@xreal
+//@   deterministic
+//@   model xreal
+//@   ensures [def] result == sqrt(Variance(xs))
 //@   assigns nothing
 
 // The generic inverse CDF is used here as an opaque deterministic function
